@@ -333,6 +333,41 @@ def gen_inputs(tier, seed):
     return items, dist
 
 
+def gen_history(tier, seed):
+    """Order-sensitive texts, parsed one after the other in ONE process (no de-duplication): a text of the language
+    followed by texts that a plausible normalisation (dropping / trimming blanks, case folding, collapsing
+    parentheses) would map onto it but that are different texts -- outside the language (a name or keyword split by a
+    blank) or with a different reading (another name, a name instead of a constant).  parse_expression is a function
+    of its argument alone, so what it answers must not depend on what was parsed before."""
+    rng = random.Random(seed * 7919 + 14)
+    names = ["ab", "foo", "Bar", "truex", "falsey", "pq", "xtrue", "zz", "abc", "tru", "Qr"]
+    out = []
+    n = 140 if tier == "quick" else 900
+    for k in range(n):
+        nm = rng.sample(names, 3)
+        toks = random_long(rng, rng.randint(1, 4), nm + ["true", "false"])
+        words = [i for i, t in enumerate(toks) if is_word(t) and len(t) > 1]
+        base = render(toks, rng.choice(("sp", "min")))
+        seq = [base]
+        if words:
+            i = rng.choice(words)
+            w = toks[i]
+            c = rng.randrange(1, len(w))
+            split = list(toks[:i]) + [w[:c], w[c:]] + list(toks[i + 1 :])
+            seq.append(render(split, rng.choice(("sp", "min"))))  # a name / keyword split by a blank: not in the language
+            flipped = list(toks)
+            flipped[i] = w.swapcase() if rng.random() < 0.5 else w[:c] + w[c].swapcase() + w[c + 1 :]
+            seq.append(render(flipped, "sp"))  # in the language, other name (or a name where a constant was)
+        seq.append(base.upper() if rng.random() < 0.5 else base.lower())
+        seq.append("(" + base + ")")
+        seq.append(" " + base + "  ")
+        seq.append(base)  # the very same text again
+        if k % 2:
+            seq.reverse()  # the confusable text first, then the text it is confusable with
+        out += seq
+    return out
+
+
 def random_long(rng, n_operands, names):
     """Random expression: recursive random grouping so that parentheses are always balanced."""
 
@@ -577,12 +612,23 @@ def main(tier):
     stats = {}
     dis = {"wellFormed-vs-parse": [], "lex-vs-intended-tokens": [], "parse-tree": [], "printfull-roundtrip": []}
     n_acc = 0
+    n_iso = 0
     for i, (s, r, a) in enumerate(zip(all_texts, impl, answers)):
         if i < len(texts):
             st, intended = seen[s]
         else:
             st, intended = "printfull", None
+        nf = len(chk.failures)
         judge(chk, stats, st, s, intended, r, a, dis)
+        if len(chk.failures) > nf and n_iso < 60:
+            # does the answer depend on what the same worker parsed before?  (parsed here, where nothing was parsed yet)
+            n_iso += 1
+            if run_impl(s) != r:
+                nchunks = max(procs * 8, min(len(all_texts) // 16, 512))
+                prev = all_texts[:i] if (procs <= 1 or len(all_texts) < 64) else all_texts[i % nchunks : i : nchunks]
+                for f in chk.failures[nf:]:
+                    f["input"]["after"] = prev[-600:]
+                    f["detail"]["history_dependent"] = "parsed on its own the same text is answered differently; `after` lists what the same process parsed before it"
         if r[0] == "tree" and a != "REJECT-LEX":
             n_acc += 1
             mt = a.split("\t")[0]
@@ -595,6 +641,16 @@ def main(tier):
                 dis["printfull-roundtrip"].append({"tree": t, "text": s, "model_parse": mtree})
             elif r[0] == "tree" and r[1] != t:
                 chk.add_failure({"text": s, "codepoints": enc_text(s)}, {"what": "the fully parenthesised text of a tree is read as a different tree", "tree": tree_text(t), "returned": tree_text(r[1])})
+    # history: order-sensitive texts, one process, sequentially (after the forked workers, so nothing above depends on it)
+    hist = gen_history(tier, chk.seed)
+    impl_h = _work(hist)
+    ans_h = driver.run([f"case\t{enc_text(s)}\t{r[1] if r[0] == 'tree' else '-'}" for s, r in zip(hist, impl_h)], **EXE)
+    for i, (s, r, a) in enumerate(zip(hist, impl_h, ans_h)):
+        nf = len(chk.failures)
+        judge(chk, stats, "history", s, None, r, a, dis)
+        for f in chk.failures[nf:]:
+            f["input"]["after"] = hist[max(0, i - 8) : i]  # the texts parsed just before, in order (the replay parses them first)
+    chk.extra["history_texts"] = len(hist)
     pending = dis.pop("_pending_N", [])
     dis["impl-tree-not-tight"] = resolve_not_tight(chk, stats, pending)
     chk.extra["not_tight_answers"] = len(pending)
@@ -609,7 +665,7 @@ def main(tier):
     chk.add_corr("lex (model tokens vs the tokens the generator wrote)", sum(1 for s in texts if seen[s][1] is not None), dis["lex-vs-intended-tokens"])
     chk.add_corr("wellFormed scanner vs model parse acceptance", len(all_texts), dis["wellFormed-vs-parse"])
     chk.add_corr("printFull round trip through the model (lex, parse)", len(pf_texts), dis["printfull-roundtrip"])
-    chk.evaluations = len(all_texts)
+    chk.evaluations = len(all_texts) + len(hist)
     chk.extra["inputs_by_stream"] = {f"{st}:{io}": v for (st, io), v in sorted(stats.items()) if st not in ("reject-kind", "faithful", "tree")}
     chk.extra["reject_kinds"] = {k: v for (st, k), v in stats.items() if st == "reject-kind"}
     chk.extra["in_language_texts"] = n_in
@@ -624,7 +680,8 @@ def main(tier):
         "three leaf slots filled in rotation from 9 leaf triples (multi-letter / upper-case names, keyword prefixes, constants), each rendered blank-separated, without blanks and "
         "(sampled) with random blanks; single-token mutants of those and random token sequences (mostly outside the language); a hand-written list of malformed texts and texts "
         "with an inserted foreign character (digits, _, tab, newline, NBSP, non-ASCII letters, combining mark, lone surrogate, astral letter); random character strings; "
-        "fully parenthesised prints (by the model's printFull) of all trees <= %d nodes; random long expressions (4-%d operands). Each text: parse_expression vs model "
+        "fully parenthesised prints (by the model's printFull) of all trees <= %d nodes; random long expressions (4-%d operands); an order-sensitive history stream "
+        "(a text, then texts a blank-dropping / case-folding / parenthesis-collapsing normalisation would confuse with it, parsed one after the other in one process). Each text: parse_expression vs model "
         "(accept/reject, structural tree), and the Lean relation isReading && isTight evaluated on the implementation's tree. non-trivial = distinct accepted token sequences "
         "with >= 2 binary operators or a ~ next to a binary operator." % (nmax, kmax, 22 if tier == "quick" else 30)
     )
@@ -643,6 +700,8 @@ def replay(path):
         print(json.dumps(d, indent=1))
         return 1
     text = dec_text(d["input"]["codepoints"])
+    for prev in d["input"].get("after", []):
+        run_impl(prev)
     r = run_impl(text)
     a = driver.run([f"case\t{enc_text(text)}\t{r[1] if r[0] == 'tree' else '-'}"], **EXE)[0]
     print("text           :", repr(text))
